@@ -1,5 +1,5 @@
 (** C07 — property theorems only. *)
-From V Require Import Base.Util Gql.Ast Peg.Peg Gen.C07_grammar_gen C07.Builder C07.Model C07.AstEq C07.Spec C07.Proofs C07.Lexical C07.Strings C07.Numbers.
+From V Require Import Base.Util Gql.Ast Peg.Peg Gen.C07_grammar_gen C07.Builder C07.Model C07.AstEq C07.Spec C07.Proofs C07.Lexical C07.Strings C07.Numbers C07.Fuel.
 From V Require Import Peg.PegProps.
 
 Theorem C07_positions_true : forall inp file (p : pair rule),
@@ -129,3 +129,14 @@ Theorem C07_int_lex : forall l post sk i,
        (Ok (post, (i + slen l)%N, [Pair R_IntValue i (i + slen l)%N []])).
 Proof. exact int_lex. Qed.
 Print Assumptions C07_int_lex.
+
+(** fuel sufficiency: on every input and for every start rule the interpreter answers within the model's
+    fuel (pest-as-modelled terminates on this grammar; the [PFuel] outcome of the model is unreachable) *)
+Theorem C07_never_out_of_fuel : forall start inp, parse_pairs start inp <> OutOfFuel.
+Proof. exact parse_pairs_never_out_of_fuel. Qed.
+Print Assumptions C07_never_out_of_fuel.
+
+Theorem C07_parse_never_fuel : forall file inp,
+  parse_operation_document file inp <> PFuel /\ parse_type_system_document file inp <> PFuel.
+Proof. intros file inp. split; [apply parse_operation_document_never_fuel|apply parse_type_system_document_never_fuel]. Qed.
+Print Assumptions C07_parse_never_fuel.
